@@ -244,7 +244,10 @@ func walkString(s string, f func(i int, p lsp.Position) bool) {
 	lastCR := false
 
 	for i, r := range s {
-		if !f(i, p) {
+		// The position between the \r and \n of a \r\n sequence is not a
+		// character boundary; don't generate a pair for it. Otherwise the
+		// start of the next line would map back to the \n.
+		if !(r == '\n' && lastCR) && !f(i, p) {
 			return
 		}
 		switch {
